@@ -1,3 +1,4 @@
 //! C04 - codecs round-trip every packet and interoperate between client and broker.
 pub mod varint;
 pub mod rt_v4;
+pub mod rt_v5;
